@@ -130,9 +130,7 @@ fn insert_toggles(p: &Prog, t: &mut Tape) -> Prog {
         k += 1;
     }
     out.tags.insert("toggles");
-    if sandwich {
-        out.tags.insert("toggle:sandwich");
-    }
+    out.tags.insert(if sandwich { "toggle:sandwich" } else { "toggle:random-placement" });
     out
 }
 
